@@ -122,8 +122,10 @@ func (f *Metrics) GlyphList() []string {
 }
 
 func (f *Metrics) FontBBoxPDF() (bbox rect.Rect) {
-	for _, g := range f.Glyphs {
-		bbox.Extend(g.BBox)
+	names := maps.Keys(f.Glyphs)
+	sort.Strings(names)
+	for _, name := range names {
+		bbox.Extend(f.Glyphs[name].BBox)
 	}
 	return bbox
 }
